@@ -6,6 +6,7 @@ Abstract objects are tagged tuples:
 Abstract types: 'any' 'int' 'float' 'str' 'bytes' 'bool' | ('enum',k) ('lit',[objs]) ('list',t) ('seq',t) ('mseq',t)
   ('tup*',t) ('deque',t) ('set',t) ('mset',t) ('fset',t) ('tup',[ts]) ('dict',k,v) ('map',k,v) ('mmap',k,v)
   ('opt',t) ('new',t) ('ann',t) ('final',t) ('alias',t) ('cls',k) ('td',k)
+  ('nt',k)   a typing.NamedTuple class of the world (class kind 'nt'); its values are ('I',k,[(name,v)..])
   ('union',[k...],has_none)   Union[K.., (None)] of attrs classes / dataclasses of the world
 """
 from __future__ import annotations
@@ -74,7 +75,7 @@ def ty_sx(t) -> str:
     if isinstance(t, str):
         return t
     k = t[0]
-    if k == "enum" or k == "cls" or k == "td":
+    if k == "enum" or k == "cls" or k == "td" or k == "nt":
         return "(%s %d)" % (k, t[1])
     if k == "lit":
         return "(" + " ".join(["lit"] + [obj_sx(v) for v in t[1]]) + ")"
@@ -225,7 +226,7 @@ def tuple_ify(o):
             return tuple(o)
         if o and isinstance(o[0], str):  # a type term
             k = o[0]
-            if k in ("enum", "cls", "td"):
+            if k in ("enum", "cls", "td", "nt"):
                 return (k, o[1])
             if k == "lit":
                 return (k, [tuple_ify(v) for v in o[1]])
